@@ -20,6 +20,9 @@ class C02(Prop):
            | ('foreach', kind, items, block) | ('switch', subj, [(vals, block)], default_block|None, default_pos) | ('ret', n)"""
         self.tid += 1
         k = rng.random()
+        if k < 0.06:
+            # an expression statement that leaves a value: a literal, a built-in's result, a user function's result
+            return ("v", self.tid, rng.choice(["%d;", "len(\"ab\");", "idf(%d);", "\"s%d\";", "true;"]))
         if depth <= 0 or k < 0.25:
             return ("t", self.tid)
         if k < 0.30:
@@ -49,6 +52,8 @@ class C02(Prop):
         k = node[0]
         if k == "t":
             return "t(%d);" % node[1]
+        if k == "v":
+            return node[2] % node[1] if "%d" in node[2] else node[2]
         if k == "ret":
             return "return %d;" % node[1]
         blk = lambda b: "{ " + " ".join(self.render(x) for x in b) + " }"
@@ -75,6 +80,27 @@ class C02(Prop):
                 arms.insert(node[4], "default " + blk(node[3]))
             return "switch (%s) { %s }" % (lit(node[1]), " ".join(arms))
 
+    def value_stmt_in_foreach(self, nodes, inside):
+        """does a foreach body contain (at any depth) an expression statement that leaves a value?"""
+        for n in nodes:
+            k = n[0]
+            if k == "v" and inside:
+                return True
+            if k == "if":
+                if any(self.value_stmt_in_foreach(b, inside) for _, b in n[1]) or (n[2] is not None and self.value_stmt_in_foreach(n[2], inside)):
+                    return True
+            elif k == "while" and self.value_stmt_in_foreach(n[3], inside):
+                return True
+            elif k == "foreach" and self.value_stmt_in_foreach(n[3], True):
+                return True
+            elif k == "switch":
+                if any(self.value_stmt_in_foreach(b, inside) for _, b in n[2]) or (n[3] is not None and self.value_stmt_in_foreach(n[3], inside)):
+                    return True
+        return False
+
+    def in_class(self, klass, case):
+        return klass == "value-statement-in-foreach" and "value-statement-in-foreach" in case.tags
+
     class Ret(Exception):
         def __init__(self, v):
             self.v = v
@@ -84,6 +110,8 @@ class C02(Prop):
         k = node[0]
         if k == "t":
             trace.append([node[1]])
+        elif k == "v":
+            pass                         # evaluated and discarded: no effect
         elif k == "ret":
             raise C02.Ret(node[1])
         elif k == "if":
@@ -139,6 +167,9 @@ class C02(Prop):
             self.tid = self.wid = self.fid = 0
             prog = [self.tree(rng, rng.choice([1, 2, 3])) for _ in range(rng.randint(1, 3))]
             src = " ".join(self.render(x) for x in prog)
+            if "idf(" in src:
+                src = "function idf(a) { return a; } " + src
+            in_foreach = self.value_stmt_in_foreach(prog, False)
             used = sorted(set(int(src[i + 1]) for i in range(len(src) - 1) if src[i] == "c" and src[i + 1].isdigit() and (i == 0 or not src[i - 1].isalnum())))
             assigns = list(itertools.product([False, True], repeat=len(used)))
             if len(assigns) > 8 and tier == "quick":
@@ -158,8 +189,11 @@ class C02(Prop):
                 k = len(ops) - 1
                 exp = {"o%d.class" % k: "ok", "o%d.value" % k: result,
                        "o%d.trace" % k: "+".join("74(%s)" % ",".join(enc_value(a) for a in call) for call in trace)}
-                out.append(Case("run", {"script": vlib.hx(src), "objs": "N", "ops": ";".join(ops)}, "structured", expect=exp, note=src,
-                                nontrivial=any(w in src for w in ("if", "while", "foreach", "switch"))))
+                c = Case("run", {"script": vlib.hx(src), "objs": "N", "ops": ";".join(ops)}, "structured", expect=exp, note=src,
+                         nontrivial=any(w in src for w in ("if", "while", "foreach", "switch")))
+                if in_foreach:
+                    c.tags.add("value-statement-in-foreach")
+                out.append(c)
         n = 20000 if tier == "thorough" else 500
         for _ in range(n):
             g = gen.Gen(rng, max_depth=2, illtyped=0.02, use_ternary=True)
